@@ -108,6 +108,38 @@ def read_dx_lines(nx, ny, nz, o, d, v):
     return read_dx(lines)
 
 
+# A DX data row is a row of numbers however they are spelled: APBS writes `%e`, other writers an explicit plus sign, a bare
+# leading point or an upper-case exponent.  Catalogue of spellings on concrete rows (the property quantifies over all DX
+# grids, not over one writer): every value is read, in order, whatever character its row starts with.
+@harness("C18",
+         params={"nx": Int},
+         requires=["nx >= 0 and nx < 100000"],
+         ensures=[
+             "len(result['values']) == 9",
+             "result['values'][0] == Fraction(3, 2) and result['values'][1] == 2 and result['values'][2] == Fraction(-7, 2)",
+             "result['values'][3] == Fraction(1, 2) and result['values'][4] == Fraction(1, 4) and result['values'][5] == Fraction(-1, 4)",
+             "result['values'][6] == 1000 and result['values'][7] == Fraction(-1, 8) and result['values'][8] == 0",
+             "result['number of grid points'] == (nx, 3, 3)",
+         ],
+         name="read_dx.spellings")
+def read_dx_spellings(nx):
+    lines = [
+        "# Data from another writer\n",
+        "object 1 class gridpositions counts " + fmt(nx, "d") + " 3 3\n",
+        "origin 0.0 0.0 0.0\n",
+        "delta 1.0 0.0 0.0\n",
+        "delta 0.0 1.0 0.0\n",
+        "delta 0.0 0.0 1.0\n",
+        "object 2 class gridconnections counts 1 3 3\n",
+        "object 3 class array type double rank 0 items 9 data follows\n",
+        "+1.500000e+00 2.000000e+00 -3.500000e+00\n",
+        ".5 +.25 -.25\n",
+        "1E3 -1.25e-01 0\n",
+        'attribute "dep" string "positions"\n',
+    ]
+    return read_dx(lines)
+
+
 # ---------------------------------------------------------------- the conversion end to end: read_dx + read_pqr -> write_cube
 # (the seam between the three: the dictionary keys read_dx produces are the ones write_cube reads, the atoms read_pqr builds
 # carry the fields write_cube prints).  Stated over the INPUT texts: the cube's numbers are the DX header's numbers (counts
